@@ -685,7 +685,7 @@ fn build_case(rng: &mut Rng, p: &Program, main_h: &str, inc_h: &str, variant: u6
     if p.cxx && rng.chance(1, 3) {
         flags.push("--enable-cxx-namespaces".into());
     }
-    if p.cxx && rng.chance(1, 3) {
+    if p.cxx && rng.chance(if main_h.contains("virtual ") || inc_h.contains("virtual ") { 3 } else { 1 }, 4) {
         // the emitted `<Class>__bindgen_vtable` names the types of the virtual methods' signatures
         flags.push("--vtable-generation".into());
     }
